@@ -1,4 +1,4 @@
-import CueVerif.Proofs.ModCacheBase
+import CueVerif.Proofs.ModCacheStep1
 /-! C16: `Inv` is preserved by the transitions of each program point (part 2) -/
 namespace CueVerif.ModCache
 
